@@ -13,7 +13,12 @@ flows (real daemon against the mock CA; arrival times judged by the same op `jud
                 accounts on the limited one;
   call-sites    a re-registration after accountDoesNotExist, and a restart with changed contacts and account key
                 type (contact update + key roll-over POSTs) under a limit;
-  contention    three certificates on one endpoint with retried newOrder, nonce fetches and a cut connection.
+  contention    three certificates on one endpoint with retried newOrder, nonce fetches and a cut connection;
+  transport     REPEATED transport faults: more than n requests of one period are read by the server (logged as
+                arrivals) and then the connection is closed, or reset, before any answer — at the directory GET and
+                at POSTs (newAccount, newOrder), two or three certificates on one endpoint whose failing attempts
+                follow one another, under 2 per 8 s / 3 per 6 s.  A request the server received counts, whatever
+                became of its answer.
 """
 import concurrent.futures
 import os
@@ -100,6 +105,11 @@ def scenarios(ctx):
         {"kind": "two-eps", "limits": [["slow", 3, 1], ["fast", 6, 1]]},
         {"kind": "call-sites", "limits": [["rl", 3, 2]]},
         {"kind": "contention", "limits": [["rl", 4, 1]], "ncerts": 3},
+        # (every attempt fails at `pos`: the run is watched until `n_reports` failure reports: > n faulty requests
+        #  in the first period, and the first request after it)
+        {"kind": "transport", "limits": [["rl", 2, 8]], "ncerts": 3, "pos": "directory", "drop": True, "n_reports": 5},
+        {"kind": "transport", "limits": [["rl", 3, 6]], "ncerts": 3, "pos": "newAccount", "drop": "reset", "n_reports": 4},
+        {"kind": "transport", "limits": [["rl", 3, 6]], "ncerts": 2, "pos": "newOrder", "drop": True, "n_reports": 4},
     ]
     if not quick:
         scs += [{"kind": "attempts", "limits": [["rl", rng.randint(3, 5), rng.randint(9, 12)]], "n_reports": 4},
@@ -107,7 +117,12 @@ def scenarios(ctx):
                 {"kind": "multi-limit", "limits": [["a", 2, 1], ["b", 5, 3], ["c", 9, 8]], "names": ["b", "c", "a"]},
                 {"kind": "contention", "limits": [["rl", 2, 2]], "ncerts": 3},
                 {"kind": "call-sites", "limits": [["rl", 1, 1]]},
-                {"kind": "two-eps", "limits": [["slow", 2, 2], ["fast", 5, 1]]}]
+                {"kind": "two-eps", "limits": [["slow", 2, 2], ["fast", 5, 1]]},
+                {"kind": "transport", "limits": [["rl", 2, 8]], "ncerts": 2, "pos": "directory", "drop": "reset", "n_reports": 5},
+                {"kind": "transport", "limits": [["rl", 1, 5]], "ncerts": 3, "pos": "newAccount", "drop": True, "n_reports": 3},
+                {"kind": "transport", "limits": [["rl", 2, 4]], "ncerts": 3, "pos": "newOrder", "drop": "reset", "n_reports": 6},
+                {"kind": "transport", "limits": [["a", 2, 4], ["b", 5, 12]], "names": ["a", "b"], "ncerts": 3, "pos": rng.choice(["directory", "newOrder"]),
+                 "drop": rng.choice([True, "reset"]), "n_reports": 6}]
     for i, s in enumerate(scs):
         s["idx"] = 200 + i
     return scs
@@ -141,6 +156,11 @@ def run_flow(sc, root, helper):
         rules.append({"kind": "authz", "nth": 1, "answer": {"drop": True}})
         opts["nonce_on_get"] = False
         n_reports = sc["ncerts"] + 1          # one attempt is cut and repeated
+    elif kind == "transport":
+        certs = [{"name": "crt%d" % k, "identifiers": ident("t%d" % k), "key_type": "ecdsa_p256"} for k in range(sc["ncerts"])]
+        # (the mock CA logs the arrival when it has read the request, BEFORE it looks for a rule and drops the connection)
+        rules.append({"kind": sc["pos"], "times": 10 ** 6, "answer": {"drop": sc["drop"]}, "label": "transport"})
+        n_reports = sc["n_reports"]
     ca = mockca.MockCA(helper, rules=rules, opts=opts)
     ca.start()
     ca2 = None
@@ -188,6 +208,7 @@ def run_flow(sc, root, helper):
     ca.stop()
     if ca2:
         ca2.stop()
+    out["dropped"] = sum(1 for e in ca.log if e["kind"] == "ans" and e.get("drop"))
     out["stderr"] = dmn.stderr()[-400:]
     return out
 
@@ -223,6 +244,11 @@ def judge_flow(ctx, r):
                 sc["kind"], st["what"], n, per, i, i + n, st["kinds"][i:i + n + 1], gap),
                 {"part": "x:flow", "sc": sc, "stream": st})
             return
+    if sc["kind"] == "transport":
+        ctx.count("x:flow:transport:%s:%s" % (sc["pos"], "reset" if sc["drop"] == "reset" else "closed"))
+        ctx.count("x:flow:transport:requests-read-then-unanswered", r.get("dropped", 0))
+        if r.get("dropped", 0) <= max(n for _, n, _ in sc["limits"]):
+            ctx.broke("harness", "transport: only %d requests were left unanswered (limit %s)" % (r.get("dropped", 0), sc["limits"]), {"part": "x:flow", "sc": sc})
     if sc["kind"] == "call-sites":
         kinds = r["streams"][0]["kinds"]
         if kinds.count("newAccount") < 2:
@@ -240,7 +266,7 @@ def start(ctx):
     helper = mockca.Helper()
     root = os.path.join(vlib.BUILD, "scratch", "c09x-%d" % os.getpid())
     scs = scenarios(ctx)
-    ex = concurrent.futures.ThreadPoolExecutor(max_workers=8)
+    ex = concurrent.futures.ThreadPoolExecutor(max_workers=12)
     return {"ex": ex, "futs": [ex.submit(run_flow, s, root, helper) for s in scs], "t0": time.time(), "helper": helper,
             "root": root}
 
